@@ -227,5 +227,6 @@ def body_builtin(h, name, sig, numtype):
 
 CONTRACTS += [
     Contract('codegen.builtin_types', ['C03', 'C01', 'C07'], ['qbee.qvm_codegen:gen_builtin_func_call', 'qbee.expr:BuiltinFuncCall.type'],
-             body_builtin, cases=builtin_cases()),
+             body_builtin, cases=builtin_cases(), assumed={'str.find': 'uninterpreted'},
+             trusted=['str.find / str.index as an uninterpreted function with its range facts (only result types are stated here)']),
 ]
